@@ -442,6 +442,7 @@ type answer struct {
 	Spell    func(canon string) string            // raw path: describe-key spells its (true) key spec this way; everything else honest
 	Sig      func(w *world, honest []byte) []byte // raw path: the signature value answered instead of the honest one; everything else honest
 	Note     string                               // for the evidence
+	Light    bool                                 // answer-local variation (one more value of a field): quick runs it as single calls only, thorough also in histories
 }
 
 func mod(f func(v reqView, d *dparts)) func(v reqView) []byte {
@@ -502,6 +503,71 @@ func envelopeAnswers() []answer {
 		{Name: "extra-descriptor-member", Kind: kAdv, Payload: mod(func(v reqView, d *dparts) { d.extra = []kv{{"foo", "1"}} })},
 		{Name: "extra-descriptor-member-nested", Kind: kAdv, Payload: mod(func(v reqView, d *dparts) { d.extra = []kv{{"foo", obj(kv{"digest", q(v.otherDigest())})}} })},
 		{Name: "extra-descriptor-member-empty-name", Kind: kAdv, Payload: mod(func(v reqView, d *dparts) { d.extra = []kv{{"", "1"}} })},
+
+		// an added member named like a member that is known at the OTHER level (or at the same level, one level down)
+		{Name: "extra-payload-member-named-annotations", Kind: kAdv, Light: true, Payload: func(v reqView) []byte {
+			return []byte(obj(kv{"annotations", annJSON(append([][2]string{{"x", "y"}}, v.Ann...))}, kv{"targetArtifact", good(v)}))
+		}},
+		{Name: "extra-payload-member-named-digest", Kind: kAdv, Light: true, Payload: func(v reqView) []byte {
+			return []byte(obj(kv{"targetArtifact", good(v)}, kv{"digest", q(v.otherDigest())}))
+		}},
+		{Name: "extra-payload-member-named-size", Kind: kAdv, Light: true, Payload: func(v reqView) []byte { return []byte(obj(kv{"targetArtifact", good(v)}, kv{"size", "1"})) }},
+		{Name: "extra-payload-member-named-mediaType", Kind: kAdv, Light: true, Payload: func(v reqView) []byte {
+			return []byte(obj(kv{"mediaType", q("application/vnd.oci.image.index.v1+json")}, kv{"targetArtifact", good(v)}))
+		}},
+		{Name: "extra-payload-member-named-urls", Kind: kAdv, Light: true, Payload: func(v reqView) []byte {
+			return []byte(obj(kv{"targetArtifact", good(v)}, kv{"urls", `["https://example.com/x"]`}))
+		}},
+		{Name: "extra-payload-member-named-data", Kind: kAdv, Light: true, Payload: func(v reqView) []byte { return []byte(obj(kv{"targetArtifact", good(v)}, kv{"data", `"AAEC"`})) }},
+		{Name: "extra-payload-member-named-platform", Kind: kAdv, Light: true, Payload: func(v reqView) []byte {
+			return []byte(obj(kv{"targetArtifact", good(v)}, kv{"platform", `{"architecture":"amd64","os":"linux"}`}))
+		}},
+		{Name: "extra-payload-member-named-artifactType", Kind: kAdv, Light: true, Payload: func(v reqView) []byte {
+			return []byte(obj(kv{"targetArtifact", good(v)}, kv{"artifactType", `"application/vnd.example"`}))
+		}},
+		{Name: "extra-descriptor-member-named-targetArtifact", Kind: kAdv, Light: true, Payload: mod(func(v reqView, d *dparts) { d.extra = []kv{{"targetArtifact", bad(v)}} })},
+		{Name: "extra-descriptor-member-named-targetArtifact-same", Kind: kAdv, Light: true, Payload: mod(func(v reqView, d *dparts) { d.extra = []kv{{"targetArtifact", good(v)}} })},
+		{Name: "added-annotation-named-like-a-descriptor-member", Kind: kRecorded, Light: true, Payload: mod(func(v reqView, d *dparts) {
+			d.ann = append(d.ann, [2]string{"digest", v.otherDigest()})
+			d.noAN = false
+		}), Note: "an added ANNOTATION (allowed) whose key is 'digest'"},
+
+		// malformed VALUES of the descriptor members (syntactically broken digests, media types, sizes, annotation values):
+		// unvalidated plugin output that comparison, logging or error formatting code may trip over
+		{Name: "digest-no-colon", Kind: kAdv, Light: true, Payload: mod(func(v reqView, d *dparts) { d.dg = v.Digest[strings.IndexByte(v.Digest, ':')+1:] }), Note: "bare hex"},
+		{Name: "digest-dash-separator", Kind: kAdv, Light: true, Payload: mod(func(v reqView, d *dparts) { d.dg = strings.Replace(v.Digest, ":", "-", 1) })},
+		{Name: "digest-word", Kind: kAdv, Light: true, Payload: mod(func(v reqView, d *dparts) { d.dg = "none" })},
+		{Name: "digest-empty-algorithm", Kind: kAdv, Light: true, Payload: mod(func(v reqView, d *dparts) { d.dg = v.Digest[strings.IndexByte(v.Digest, ':'):] })},
+		{Name: "digest-empty-encoded", Kind: kAdv, Light: true, Payload: mod(func(v reqView, d *dparts) { d.dg = v.Digest[:strings.IndexByte(v.Digest, ':')+1] })},
+		{Name: "digest-only-colon", Kind: kAdv, Light: true, Payload: mod(func(v reqView, d *dparts) { d.dg = ":" })},
+		{Name: "digest-unknown-algorithm", Kind: kAdv, Light: true, Payload: mod(func(v reqView, d *dparts) { d.dg = "md5:d41d8cd98f00b204e9800998ecf8427e" })},
+		{Name: "digest-short-hex", Kind: kAdv, Light: true, Payload: mod(func(v reqView, d *dparts) { d.dg = v.Digest[:strings.IndexByte(v.Digest, ':')+9] })},
+		{Name: "digest-non-hex", Kind: kAdv, Light: true, Payload: mod(func(v reqView, d *dparts) { d.dg = v.Digest[:len(v.Digest)-2] + "zz" })},
+		{Name: "digest-two-colons", Kind: kAdv, Light: true, Payload: mod(func(v reqView, d *dparts) { d.dg = string(v.alg()) + ":" + v.Digest })},
+		{Name: "digest-leading-blank", Kind: kAdv, Light: true, Payload: mod(func(v reqView, d *dparts) { d.dg = " " + v.Digest })},
+		{Name: "digest-trailing-newline", Kind: kAdv, Light: true, Payload: mod(func(v reqView, d *dparts) { d.dg = v.Digest + "\n" })},
+		{Name: "digest-very-long", Kind: kAdv, Light: true, Payload: mod(func(v reqView, d *dparts) { d.dg = v.Digest + strings.Repeat("0", 1<<16) })},
+		{Name: "digest-null", Kind: kAdv, Light: true, Payload: mod(func(v reqView, d *dparts) { d.noDG = true; d.extra = []kv{{"digest", "null"}} })},
+		{Name: "digest-number", Kind: kAdv, Light: true, Payload: mod(func(v reqView, d *dparts) { d.noDG = true; d.extra = []kv{{"digest", "1"}} })},
+		{Name: "digest-array", Kind: kAdv, Light: true, Payload: mod(func(v reqView, d *dparts) { d.noDG = true; d.extra = []kv{{"digest", "[" + q(v.Digest) + "]"}} })},
+		{Name: "mediatype-no-slash", Kind: kAdv, Light: true, Payload: mod(func(v reqView, d *dparts) { d.mt = "manifest" })},
+		{Name: "mediatype-trailing-blank", Kind: kAdv, Light: true, Payload: mod(func(v reqView, d *dparts) { d.mt += " " })},
+		{Name: "mediatype-control-and-format-characters", Kind: kAdv, Light: true, Payload: mod(func(v reqView, d *dparts) { d.mt += "\x00\n%s%d" })},
+		{Name: "mediatype-null", Kind: kAdv, Light: true, Payload: mod(func(v reqView, d *dparts) { d.noMT = true; d.extra = []kv{{"mediaType", "null"}} })},
+		{Name: "mediatype-number", Kind: kAdv, Light: true, Payload: mod(func(v reqView, d *dparts) { d.noMT = true; d.extra = []kv{{"mediaType", "1"}} })},
+		{Name: "size-overflow", Kind: kAdv, Light: true, Payload: mod(func(v reqView, d *dparts) { d.sz = "9223372036854775808" })},
+		{Name: "size-huge-exponent", Kind: kAdv, Light: true, Payload: mod(func(v reqView, d *dparts) { d.sz = "1e400" })},
+		{Name: "size-string", Kind: kAdv, Light: true, Payload: mod(func(v reqView, d *dparts) { d.sz = q(d.sz) })},
+		{Name: "size-null", Kind: kAdv, Light: true, Payload: mod(func(v reqView, d *dparts) { d.sz = "null" })},
+		{Name: "size-max-int64", Kind: kAdv, Light: true, Payload: mod(func(v reqView, d *dparts) { d.sz = "9223372036854775807" })},
+		{Name: "annotation-value-number", Kind: kAdv, Light: true, NeedsAnn: true, Payload: mod(func(v reqView, d *dparts) {
+			d.annRaw = obj(kv{d.ann[0][0], "1"}, kv{d.ann[1][0], q(d.ann[1][1])})
+		})},
+		{Name: "annotation-value-null", Kind: kAdv, Light: true, NeedsAnn: true, Payload: mod(func(v reqView, d *dparts) {
+			d.annRaw = obj(kv{d.ann[0][0], "null"}, kv{d.ann[1][0], q(d.ann[1][1])})
+		})},
+		{Name: "annotations-array", Kind: kAdv, Light: true, NeedsAnn: true, Payload: mod(func(v reqView, d *dparts) { d.annRaw = `[{"a":"1"},{"b":"2"}]` })},
+		{Name: "annotations-string", Kind: kAdv, Light: true, NeedsAnn: true, Payload: mod(func(v reqView, d *dparts) { d.annRaw = `"a=1,b=2"` })},
 
 		// known descriptor members nobody asked for: tolerated by the code, "known" by the statement
 		{Name: "known-member-urls", Kind: kRecorded, Payload: mod(func(v reqView, d *dparts) { d.extra = []kv{{"urls", `["https://example.com/x"]`}} })},
@@ -1732,7 +1798,7 @@ func main() {
 			}
 			for i := range list {
 				a := &list[i]
-				if !applicable(a, desc) || a.Kind == kBreach {
+				if !applicable(a, desc) || a.Kind == kBreach || (a.Light && !r.Thorough()) {
 					continue
 				}
 				mk := func(shape string, c ...step) {
